@@ -143,6 +143,8 @@ class G:
                     return f
                 return x + 1
             if isinstance(x, float):
+                if x != x or x in (float("inf"), float("-inf")):
+                    return 0.0
                 if x in (0.0, 1.0) and k < 3:
                     return bool(x)
                 if x == int(x) and k < 6:
